@@ -81,7 +81,8 @@ pub enum Op {
     DropScanner { sc: usize },
     /// C18
     ExportDot { sc: usize, prefix: String },
-    BreakFolder { kind: FolderFault },
+    /// `victim` selects which mode's file a name-dependent fault hits (index modulo mode count)
+    BreakFolder { kind: FolderFault, #[serde(default)] victim: usize },
     HealFolder,
 }
 
